@@ -62,9 +62,11 @@ func parseBlob(b []byte) (*blobFrame, error) {
 	if f.Ts, err = binary.ReadUvarint(br); err != nil {
 		return nil, err
 	}
+	// from here on the frame read so far is returned with the error: Deserialize has already
+	// allocated for every size it has read (the tape as soon as its size is known)
 	d, err := binary.ReadUvarint(br)
 	if err != nil {
-		return nil, err
+		return f, err
 	}
 	if f.Strings, err = readSection(br, d); err != nil {
 		return f, err
